@@ -555,7 +555,6 @@ func condOnEdge(iff *ssa.If, pred *ssa.BasicBlock) ssa.Value {
 	return iff.Cond
 }
 
-
 // guardedBy reports whether every path from the function entry (from == nil) or from just after instruction `from`
 // to the instruction target takes at least one If edge accepted by pred.
 func guardedBy(target ssa.Instruction, from ssa.Instruction, pred EdgePred) bool {
